@@ -1,15 +1,38 @@
 (* C09 — executable model of thermosteam/base/sparse.py (SparseVector, SparseLogicalVector,
-   SparseArray) and of the dense NumPy reference semantics.  Definitions only.
+   SparseArray) as proposed to be repaired by pending_fixes/C09_1 .. C09_7; the kernels of the unrepaired
+   source are kept next to them and selected by the flag [lg] (legacy).  Definitions only.
 
    Representation.  A SparseVector of size n with dictionary dct is the list of n cells
    [dct.get(0) ; ... ; dct.get(n-1)] where an absent key is None.  A key outside range(n) has no
    representation: operations of the implementation that would store one return [Err EOther]
-   (= "the implementation did not raise and left the representable states").
+   (= "the implementation did not raise and left the representable states"; the history ends there).
    A SparseLogicalVector is the list of membership bits of its set.  A SparseArray is the list of
-   its rows.  Numbers are exact rationals (float rounding, nan, inf, -0.0 are not modelled).
+   its rows (all SparseVector or all SparseLogicalVector).  Numbers are exact rationals (float
+   rounding, nan, inf, -0.0 are not modelled).  Objects are values: results that share rows with a
+   SparseArray (a[i], a[[i, j]], a[mask]) are reported but not put into the store; `other is self`
+   is modelled explicitly (alias flag) where the source behaves differently for it.
 
-   Exceptions -> Common.err:  ValueError -> EValue, IndexError -> EIndex, TypeError -> EType,
-   ZeroDivisionError / FloatingPointError -> EZeroDiv, RuntimeError -> ERuntime. *)
+   Exceptions -> Common.err:  ValueError -> EValue, IndexError -> EIndex, TypeError/AttributeError -> EType,
+   ZeroDivisionError / FloatingPointError -> EZeroDiv, RuntimeError -> ERuntime.
+
+   Inventory (source lines of thermosteam/base/sparse.py):
+   * float vectors: _add/_sub/_mul/_truediv x _scalar/_sparse/_array, binary (1736-2223) and in-place
+     (1820-2274, same per-key updates; differences: self.size assignment, other is self), with the
+     size == other_size / size == 1 / other_size == 1 branches; __neg__, __abs__, __rtruediv__, __radd__,
+     __rsub__, __rmul__; comparison template gt/lt/ge/le (178-235) and hand-written _eq_*/_ne_* (2295-2422)
+   * logical vectors: _iadd/_imul/_itruediv/_iand/_ixor/_ior x _scalar/_sparse/_array (2777-3048), binary forms
+     through copy() / promotion to float (307-330), __sub__/__isub__, __neg__, __invert__, __rtruediv__,
+     comparisons _eq.._le_sparse (3050-3187) and the scalar/array template (259-305)
+   * dispatch templates sparse_vector_math / sparse_vector_imath / sparse_array_math / sparse_array_imath (22-177)
+     with reduce_ndim (464-493), dtype promotion, one-row broadcasting and zip() over rows
+   * __getitem__/__setitem__ of SparseVector (1621-1703), SparseLogicalVector (2661-2740), SparseArray (732-971)
+     for int, 1-tuple, int list/ndarray, boolean mask, slice, open slice and (row, column) pairs
+   * reductions any/all/sum/mean/max/min with axis/keepdims on vectors (1552-1600, 2604-2650) and arrays
+     (1025-1207; boolean arrays: any/all only), copy, clear, setflags(0) / read_only, to_array, construction
+     from list / ndarray / dict / SparseVector / sparse()
+   Not modelled: negative indices and steps, mix_from, copy_like, sum_of, nonzero_* / negative_* helpers,
+   to_flat_array/from_flat_array, the `# pragma: no cover` methods that delegate to to_array(), numeric
+   reductions of boolean arrays, SparseLogicalVector/boolean SparseArray __setitem__ through arrays. *)
 From V Require Export Common.Num.
 
 (* ------------------------------------------------------------------ cells *)
